@@ -7,9 +7,10 @@ from gen import poolgen as PG
 from lib.core import existing_modules
 
 ID = "C16"
-LEVEL = "other"
-LEAN_MODULES = existing_modules(["Sonic.Props.C16"]) + ["Sonic.Spec.Json"]
-REQUIRED_THEOREMS = []
+LEVEL = "proof"
+LEAN_MODULES = ['Sonic.Props.C16']
+REQUIRED_THEOREMS = ["Sonic.Props.C16." + n for n in ["C16_inv", "C16_inv_explicit", "C16_accounting", "C16_zero", "C16_zero_pool", "C16_realloc_prefix",
+                                                         "C16_realloc_runs", "C16_contents_stable", "C16_shared_lifetime", "C16_mem_ok", "C16_pattern"]]
 CONFIGS = [("avx2", "prod"), ("avx2", "san")]
 CONFIGS_THOROUGH = CONFIGS + [("sse", "prod")]
 RULE = ("sequences of 10..60 Malloc / Realloc / Clear / copy / move / copy-assign / move-assign / destroy operations over up to 8 handles "
@@ -23,7 +24,11 @@ EXPLANATION = ("Three-way comparison after every operation: the compiled MemoryP
                "output that every block is 8-aligned and disjoint from all blocks handed out since the pool's last Clear.")
 ASSUMPTIONS = ["the base allocator returns fresh, pairwise disjoint regions (malloc)"]
 TRUSTED = ["Python mirror of the allocator + judge-side disjointness/alignment checker"]
-LEVEL_TEXT = "Invariant theorems over all op sequences as listed in the evidence + exact three-way differential correspondence of every pointer and counter."
+LEVEL_TEXT = ("Machine-checked proof (Lean 4): for every finite op sequence from the initial state the pool invariant holds (8-aligned blocks inside "
+              "their chunk, pairwise disjoint since the last Clear, distinct chunk regions, refcount = live handles; C16_inv_explicit), Size/Capacity "
+              "accounting, zero sizes -> null, realloc prefix preserved and in-place iff last allocation with room, contents of surviving blocks "
+              "never disturbed, shared lifetime; the model is tied to the compiled allocator by an exact three-way differential of every pointer, "
+              "counter and base free (implementation = model = independent Python mirror).")
 LEVEL_NOTE = "Trusted: Lean kernel; standard axioms; malloc disjointness; harness; Python mirror."
 TECHNIQUE = "Lean 4 invariant proof over op sequences + three-way differential correspondence"
 
